@@ -1,6 +1,1024 @@
-//! C16 — not built yet (stub; replaced by the real check).
+//! C16 — scripts built by the builder parse back exactly; templates and addresses agree.
+use std::collections::BTreeMap;
+use std::str::FromStr;
+
+use elements::address::Payload;
+use elements::bitcoin::PublicKey as BtcKey;
+use elements::opcodes::{All, Class, ClassifyContext};
+use elements::script::{read_scriptint, Builder, Error as ScriptError, Instruction};
+use elements::secp256k1_zkp::PublicKey as BlindKey;
+use elements::{Address, AddressParams, Script};
+use serde_json::json;
+
 use crate::engine::*;
+use crate::gen::pool;
+use crate::refimpl::script::{self as rs, AddrKind, BOp, Ins, VerifyCtx};
+use crate::{ensure, ensure_eq, fail};
+
+/// `Address::from_script` (via `Script::is_v1plus_p2witprog`, which has no lower bound on the
+/// program length) gives an address for `OP_n OP_0` and `OP_n <1 byte>` (n = 1..16); such a
+/// program is not a witness program (BIP 141: 2..40 bytes) and the text form does not parse.
+pub const KF_SHORT_PROGRAM: &str = "from-script-accepts-v1plus-program-shorter-than-2";
+
+/// signature of KF_SHORT_PROGRAM: version opcode OP_1..OP_16, then a direct push of 0 or 1 bytes
+fn short_program_sig(s: &[u8]) -> bool {
+    (s.len() == 2 || s.len() == 3) && (rs::OP_1..=rs::OP_16).contains(&s[0]) && s[1] as usize == s.len() - 2
+}
+
+fn hex_clip(b: &[u8]) -> String {
+    if b.len() <= 120 {
+        hex(b)
+    } else {
+        format!("{}..({} bytes)..{}", hex(&b[..60]), b.len(), hex(&b[b.len() - 20..]))
+    }
+}
+
+// ---------------------------------------------------------------------------------------------
+// templates / addresses: one oracle shared by the enumeration and the perturbation search
+
+/// cheap per-thread class counter (flushed into `Ctx` by the caller)
+#[derive(Default)]
+struct Local {
+    classes: BTreeMap<&'static str, u64>,
+    evals: u64,
+}
+impl Local {
+    fn class(&mut self, k: &'static str) {
+        *self.classes.entry(k).or_insert(0) += 1;
+    }
+    fn flush(self, ctx: &mut Ctx) {
+        ctx.evals_n(self.evals);
+        for (k, v) in self.classes {
+            ctx.class_n(k, v);
+        }
+    }
+}
+
+const PRED_NAMES: [&str; 10] = [
+    "is_p2pkh",
+    "is_p2sh",
+    "is_p2pk",
+    "is_witness_program",
+    "is_v0_p2wpkh",
+    "is_v0_p2wsh",
+    "is_v1_p2tr",
+    "is_op_return",
+    "is_provably_unspendable",
+    "is_v1plus_p2witprog",
+];
+const V1PLUS: usize = 9;
+
+fn model_preds(s: &[u8]) -> [bool; 10] {
+    [
+        rs::is_p2pkh(s),
+        rs::is_p2sh(s),
+        rs::is_p2pk(s),
+        rs::is_witness_program(s),
+        rs::is_v0_p2wpkh(s),
+        rs::is_v0_p2wsh(s),
+        rs::is_v1_p2tr(s),
+        rs::is_op_return(s),
+        rs::is_provably_unspendable(s),
+        rs::is_v1plus_witness_program(s),
+    ]
+}
+
+fn all_params() -> [&'static AddressParams; 3] {
+    [&AddressParams::LIQUID, &AddressParams::ELEMENTS, &AddressParams::LIQUID_TESTNET]
+}
+fn params_name(p: &AddressParams) -> &'static str {
+    if p == &AddressParams::LIQUID {
+        "liquid"
+    } else if p == &AddressParams::ELEMENTS {
+        "elements"
+    } else {
+        "liquid-testnet"
+    }
+}
+/// combination `k` (0..6) of network parameters and blinding key
+fn combo(k: usize, salt: usize) -> (&'static AddressParams, Option<BlindKey>) {
+    let keys = &pool().pubkeys;
+    let blinder = if k % 2 == 1 { Some(keys[salt % keys.len()]) } else { None };
+    (all_params()[(k / 2) % 3], blinder)
+}
+
+fn known_or_fail(ctx: &mut Ctx, loc: &mut Local, s: &[u8], msg: String) -> R {
+    if short_program_sig(s) && ctx.is_known(KF_SHORT_PROGRAM) {
+        loc.class("known:short-v1plus-program");
+        Ok(())
+    } else {
+        Err(Failure::new(msg))
+    }
+}
+
+fn check_address(
+    a: &Address,
+    kind: &AddrKind,
+    bytes: &[u8],
+    params: &'static AddressParams,
+    blinder: Option<BlindKey>,
+) -> Result<String, Failure> {
+    let n = bytes.len();
+    ensure!(a.params == params, "from_script changed the address parameters (script {})", hex(bytes));
+    ensure!(a.blinding_pubkey == blinder, "from_script changed the blinding key (script {})", hex(bytes));
+    let payload_ok = match (&a.payload, kind) {
+        (Payload::PubkeyHash(h), AddrKind::PubkeyHash(w)) => AsRef::<[u8]>::as_ref(h) == &w[..],
+        (Payload::ScriptHash(h), AddrKind::ScriptHash(w)) => AsRef::<[u8]>::as_ref(h) == &w[..],
+        (Payload::WitnessProgram { version, program }, AddrKind::Witness { version: wv, program: wp }) => {
+            version.to_u8() == *wv && program == wp
+        }
+        _ => false,
+    };
+    ensure!(payload_ok, "address payload {:?} of script {} is not {:?}", a.payload, hex(bytes), kind);
+    let spk = guard::guard("Address::script_pubkey", n, || a.script_pubkey())?;
+    ensure!(
+        spk.as_bytes() == bytes,
+        "script_pubkey of the address derived from script {} is {}",
+        hex(bytes),
+        hex(spk.as_bytes())
+    );
+    let text = guard::guard("Address::to_string", n, || a.to_string())?;
+    let back = guard::guard("Address::from_str", text.len(), || Address::from_str(&text))?;
+    match back {
+        Ok(b) => ensure!(
+            &b == a,
+            "text form {} of the address of script {} ({}, blinded={}) parses to a different address {:?}",
+            text,
+            hex(bytes),
+            params_name(params),
+            blinder.is_some(),
+            b
+        ),
+        Err(e) => fail!(
+            "text form {} of the address of script {} ({}, blinded={}) does not parse: {:?}",
+            text,
+            hex(bytes),
+            params_name(params),
+            blinder.is_some(),
+            e
+        ),
+    }
+    let back2 = guard::guard("Address::parse_with_params", text.len(), || Address::parse_with_params(&text, params))?;
+    ensure!(
+        back2.as_ref().ok() == Some(a),
+        "parse_with_params({}, {}) gives {:?} for the address of script {}",
+        text,
+        params_name(params),
+        back2,
+        hex(bytes)
+    );
+    Ok(text)
+}
+
+/// All template oracles for one script. `rot` selects the (parameters, blinding key) combination
+/// used for the existence test; when an address exists all six combinations are checked.
+fn check_script(bytes: &[u8], rot: usize, ctx: &mut Ctx, loc: &mut Local) -> R {
+    let n = bytes.len();
+    let script = Script::from(bytes.to_vec());
+    let got = guard::guard("Script::is_* predicates", n, || {
+        [
+            script.is_p2pkh(),
+            script.is_p2sh(),
+            script.is_p2pk(),
+            script.is_witness_program(),
+            script.is_v0_p2wpkh(),
+            script.is_v0_p2wsh(),
+            script.is_v1_p2tr(),
+            script.is_op_return(),
+            script.is_provably_unspendable(),
+            script.is_v1plus_p2witprog(),
+        ]
+    })?;
+    let want = model_preds(bytes);
+    loc.evals += 1;
+    let mut deferred: Option<String> = None;
+    if got != want {
+        for i in 0..got.len() {
+            if got[i] != want[i] {
+                let msg = format!(
+                    "Script::{} is {} for script {} ({} bytes) whose byte form says {}",
+                    PRED_NAMES[i],
+                    got[i],
+                    hex_clip(bytes),
+                    n,
+                    want[i]
+                );
+                if i == V1PLUS {
+                    // reported after the address oracle (the address is the visible consequence)
+                    deferred = Some(msg);
+                } else {
+                    return Err(Failure::new(msg));
+                }
+            }
+        }
+    }
+    let kind = rs::address_kind(bytes);
+    let (params, blinder) = combo(rot % 6, rot / 6);
+    let addr = guard::guard("Address::from_script", n, || Address::from_script(&script, blinder, params))?;
+    loc.evals += 1;
+    match (&addr, &kind) {
+        (None, None) => {}
+        (Some(a), None) => {
+            // show the unblinded form too: that is the one whose text does not parse
+            let plain = guard::guard("Address::from_script", n, || Address::from_script(&script, None, params))?;
+            let mut shown = String::new();
+            for x in [Some(a.clone()), plain].into_iter().flatten() {
+                let text = guard::guard("Address::to_string", n, || x.to_string())?;
+                let back = guard::guard("Address::from_str", text.len(), || Address::from_str(&text))?;
+                shown.push_str(&format!(" [{} -> from_str: {:?}]", text, back));
+            }
+            let msg = format!(
+                "Address::from_script gives an address for script {} which is none of p2pkh / p2sh / v0 20- or 32-byte program / \
+                 v1..v16 witness program of 2..40 bytes; text forms:{}",
+                hex_clip(bytes),
+                shown
+            );
+            known_or_fail(ctx, loc, bytes, msg)?;
+        }
+        (None, Some(k)) => fail!("Address::from_script gives None for script {} which is {:?}", hex(bytes), k),
+        (Some(_), Some(k)) => {
+            for c in 0..6 {
+                let (params, blinder) = combo(c, rot / 6 + c);
+                let a = guard::guard("Address::from_script", n, || Address::from_script(&script, blinder, params))?;
+                let Some(a) = a else {
+                    fail!("Address::from_script depends on parameters / blinding key: None for script {} with {}", hex(bytes), params_name(params))
+                };
+                let text = check_address(&a, k, bytes, params, blinder)?;
+                loc.evals += 1;
+                let label = match (k, blinder.is_some()) {
+                    (AddrKind::PubkeyHash(_), false) => "address:p2pkh",
+                    (AddrKind::PubkeyHash(_), true) => "address:p2pkh:blinded",
+                    (AddrKind::ScriptHash(_), false) => "address:p2sh",
+                    (AddrKind::ScriptHash(_), true) => "address:p2sh:blinded",
+                    (AddrKind::Witness { version: 0, .. }, false) => "address:segwit-v0",
+                    (AddrKind::Witness { version: 0, .. }, true) => "address:segwit-v0:blinded",
+                    (AddrKind::Witness { .. }, false) => "address:segwit-v1plus",
+                    (AddrKind::Witness { .. }, true) => "address:segwit-v1plus:blinded",
+                };
+                loc.class(label);
+                if ctx.wants_sample(label) {
+                    ctx.sample(label, || json!({"script": hex(bytes), "network": params_name(params), "address": text}));
+                }
+            }
+        }
+    }
+    if let Some(msg) = deferred {
+        known_or_fail(ctx, loc, bytes, msg)?;
+    }
+    match rs::near_template(bytes) {
+        Some((how, what)) => {
+            let label: &'static str = match (how, what) {
+                ("exact", "p2pkh") => "exact:p2pkh",
+                ("exact", "p2sh") => "exact:p2sh",
+                ("exact", "p2pk") => "exact:p2pk",
+                ("exact", "v0_p2wpkh") => "exact:v0_p2wpkh",
+                ("exact", "v0_p2wsh") => "exact:v0_p2wsh",
+                ("exact", "v1_p2tr") => "exact:v1_p2tr",
+                ("exact", "v0_other_witprog") => "exact:v0-witness-program-other-length(no address)",
+                ("exact", _) => "exact:v1plus-witness-program",
+                ("sub1", "p2pkh") => "near:one-byte-substituted:p2pkh",
+                ("sub1", "p2sh") => "near:one-byte-substituted:p2sh",
+                ("sub1", "p2pk") => "near:one-byte-substituted:p2pk",
+                ("sub1", _) => "near:one-byte-substituted:witness-program",
+                ("trunc1", "p2pkh") => "near:one-byte-short:p2pkh",
+                ("trunc1", "p2sh") => "near:one-byte-short:p2sh",
+                ("trunc1", "p2pk") => "near:one-byte-short:p2pk",
+                ("trunc1", _) => "near:one-byte-short:witness-program",
+                (_, "p2pkh") => "near:one-byte-long:p2pkh",
+                (_, "p2sh") => "near:one-byte-long:p2sh",
+                (_, "p2pk") => "near:one-byte-long:p2pk",
+                _ => "near:one-byte-long:witness-program",
+            };
+            loc.class(label);
+            ctx.nontrivial(&bytes);
+            if how != "exact" && ctx.wants_sample(label) {
+                ctx.sample(label, || json!({"script": hex_clip(bytes), "predicates_true": PRED_NAMES.iter().zip(want).filter(|x| x.1).map(|x| *x.0).collect::<Vec<_>>(), "address": kind.is_some()}));
+            }
+        }
+        None => loc.class("far-from-any-template"),
+    }
+    Ok(())
+}
+
+/// tail bytes that a template of this shape fixes: positions and values
+fn template_patch(l: usize, b0: u8) -> Vec<(usize, u8)> {
+    let mut p: Vec<(usize, u8)> = Vec::new();
+    // by length: the exact template lengths get the template's fixed tail whatever the head is
+    match l {
+        25 => p.extend_from_slice(&[(2, 20), (23, rs::OP_EQUALVERIFY), (24, rs::OP_CHECKSIG)]),
+        23 => p.push((22, rs::OP_EQUAL)),
+        35 => p.push((34, rs::OP_CHECKSIG)),
+        _ => {}
+    }
+    // by head: template-shaped scripts of every other length
+    if l >= 3 && p.is_empty() {
+        match b0 {
+            rs::OP_DUP => {
+                p.push((2, 20));
+                if l >= 5 {
+                    p.push((l - 2, rs::OP_EQUALVERIFY));
+                    p.push((l - 1, rs::OP_CHECKSIG));
+                }
+            }
+            rs::OP_HASH160 => p.push((l - 1, rs::OP_EQUAL)),
+            33 | 65 => p.push((l - 1, rs::OP_CHECKSIG)),
+            _ => {}
+        }
+    }
+    p
+}
+
+const MAX_L: u64 = 45;
+
+/// index = L * 256 + b0; inner loop over every second byte and the variants
+fn templates_exhaustive(idx: u64, seed: u64, ctx: &mut Ctx) -> R {
+    let l = (idx / 256) as usize;
+    let b0 = (idx % 256) as u8;
+    let mut loc = Local::default();
+    let r = templates_index(l, b0, idx, seed, ctx, &mut loc);
+    // every template must really be hit at the index that contains it (harness sanity)
+    if r.is_ok() {
+        let need = match (l, b0) {
+            (25, rs::OP_DUP) => Some("exact:p2pkh"),
+            (23, rs::OP_HASH160) => Some("exact:p2sh"),
+            (35, 33) => Some("exact:p2pk"),
+            (22, 0) => Some("exact:v0_p2wpkh"),
+            (34, 0) => Some("exact:v0_p2wsh"),
+            (34, rs::OP_1) => Some("exact:v1_p2tr"),
+            (4, rs::OP_16) | (42, rs::OP_16) => Some("exact:v1plus-witness-program"),
+            _ => None,
+        };
+        if let Some(k) = need {
+            assert!(loc.classes.get(k).copied().unwrap_or(0) > 0, "harness: enumeration index ({}, {:#x}) did not hit {}", l, b0, k);
+        }
+    }
+    loc.flush(ctx);
+    r
+}
+
+fn templates_index(l: usize, b0: u8, idx: u64, seed: u64, ctx: &mut Ctx, loc: &mut Local) -> R {
+    if l == 0 {
+        // one script only
+        if b0 == 0 {
+            check_script(&[], 0, ctx, loc)?;
+        }
+        return Ok(());
+    }
+    if l == 1 {
+        return check_script(&[b0], b0 as usize, ctx, loc);
+    }
+    let fill = seeded_bytes(seed, idx, 256 + 48);
+    let patch = template_patch(l, b0);
+    let mut s = vec![0u8; l];
+    s[0] = b0;
+    for b1 in 0..=255usize {
+        // variant A: filler tail
+        s[1] = b1 as u8;
+        s[2..].copy_from_slice(&fill[b1 + 2..b1 + l]);
+        let rot = b1 + idx as usize;
+        check_script(&s, rot, ctx, loc)?;
+        if l < 3 {
+            continue;
+        }
+        // variant B: the tail a template of this shape requires
+        let mut changed = false;
+        for &(i, v) in &patch {
+            if i >= 2 && s[i] != v {
+                s[i] = v;
+                changed = true;
+            }
+        }
+        if changed {
+            check_script(&s, rot + 1, ctx, loc)?;
+        }
+        // variant C: one tail byte of B perturbed (a fixed position when there is one)
+        let tail_fixed: Vec<usize> = patch.iter().map(|x| x.0).filter(|i| *i >= 2).collect();
+        let pos = if tail_fixed.is_empty() { 2 + (fill[b1] as usize) % (l - 2) } else { tail_fixed[b1 % tail_fixed.len()] };
+        let x = fill[b1 + 1] | u8::from(fill[b1 + 1] == 0);
+        s[pos] ^= x;
+        check_script(&s, rot + 2, ctx, loc)?;
+    }
+    // the p2pkh push-length byte is the third byte: every value of it, under a correct head and tail
+    if b0 == rs::OP_DUP && l >= 5 {
+        for x in 0..=255usize {
+            s[1] = rs::OP_HASH160;
+            s[2] = x as u8;
+            s[3..].copy_from_slice(&fill[x + 3..x + l]);
+            s[l - 2] = rs::OP_EQUALVERIFY;
+            s[l - 1] = rs::OP_CHECKSIG;
+            check_script(&s, x + idx as usize, ctx, loc)?;
+            loc.class("family:p2pkh-third-byte");
+        }
+    }
+    Ok(())
+}
+
+fn template_perturbations(t: &mut Tape, ctx: &mut Ctx) -> R {
+    let mut loc = Local::default();
+    let kind = t.below(9);
+    let mut s: Vec<u8> = match kind {
+        0 | 1 => {
+            // witness program, every version and every program length 0..=42
+            let v = t.below(17) as u8;
+            let n = t.below(43);
+            let mut s = vec![if v == 0 { 0 } else { 0x50 + v }, n as u8];
+            s.extend_from_slice(&t.bytes(n));
+            loc.class("base:witness-program-any-length");
+            s
+        }
+        2 => {
+            let mut s = vec![0x76, 0xa9, 0x14];
+            s.extend_from_slice(&t.arr20());
+            s.extend_from_slice(&[0x88, 0xac]);
+            loc.class("base:p2pkh");
+            s
+        }
+        3 => {
+            let mut s = vec![0xa9, 0x14];
+            s.extend_from_slice(&t.arr20());
+            s.push(0x87);
+            loc.class("base:p2sh");
+            s
+        }
+        4 => {
+            let keys = &pool().pubkeys;
+            let k = keys[t.below(keys.len())];
+            let mut s = Vec::new();
+            if t.bool() {
+                s.push(65);
+                s.extend_from_slice(&k.serialize_uncompressed());
+            } else {
+                s.push(33);
+                s.extend_from_slice(&k.serialize());
+            }
+            s.push(0xac);
+            loc.class("base:p2pk");
+            s
+        }
+        5 => {
+            let (v, n) = t.choose(&[(0u8, 20usize), (0, 32), (0x51, 32), (0x51, 20), (0x60, 40), (0x60, 2)]);
+            let mut s = vec![v, n as u8];
+            s.extend_from_slice(&t.bytes(n));
+            loc.class("base:witness-special");
+            s
+        }
+        6 => {
+            let n = t.below(40);
+            let mut s = vec![0x6a];
+            s.extend_from_slice(&t.bytes(n));
+            if t.chance(64) {
+                s.insert(0, t.u8());
+            }
+            loc.class("base:op_return");
+            s
+        }
+        7 => {
+            let n = t.choose(&[10_000usize, 10_001, 9_999, 10_002]);
+            let mut s = t.filler(n);
+            s[0] = t.choose(&[0x51u8, 0x6a, 0x00, 0x76]);
+            loc.class("base:around-max-script-size");
+            s
+        }
+        _ => {
+            let n = t.below(46);
+            loc.class("base:random");
+            t.bytes(n)
+        }
+    };
+    let m = t.below(9);
+    let mlabel = match m {
+        0 => "mutation:none",
+        1 if !s.is_empty() => {
+            let i = t.below(s.len());
+            s[i] ^= 1 + t.below(255) as u8;
+            "mutation:substitute-one-byte"
+        }
+        2 if !s.is_empty() => {
+            s.pop();
+            "mutation:drop-last"
+        }
+        3 if !s.is_empty() => {
+            s.remove(0);
+            "mutation:drop-first"
+        }
+        4 => {
+            s.push(t.u8());
+            "mutation:append"
+        }
+        5 => {
+            s.insert(0, t.u8());
+            "mutation:prepend"
+        }
+        6 if s.len() >= 3 => {
+            let i = 1 + t.below(s.len() - 1);
+            if t.bool() {
+                s.remove(i);
+                "mutation:remove-inner"
+            } else {
+                s.insert(i, t.u8());
+                "mutation:insert-inner"
+            }
+        }
+        7 if s.len() >= 2 && (rs::OP_1..=rs::OP_16).contains(&s[0]) => {
+            // non-minimal version: the number pushed as data
+            let v = s[0] - 0x50;
+            drop(s.splice(0..1, [1u8, v]));
+            "mutation:version-as-data-push"
+        }
+        8 if s.len() >= 2 && s[1] <= 75 => {
+            // program pushed with PUSHDATA1
+            s.insert(1, rs::OP_PUSHDATA1);
+            "mutation:program-via-pushdata1"
+        }
+        _ => "mutation:none",
+    };
+    loc.class(mlabel);
+    let rot = t.below(36);
+    let r = check_script(&s, rot, ctx, &mut loc);
+    loc.flush(ctx);
+    r
+}
+
+// ---------------------------------------------------------------------------------------------
+// builder programs
+
+fn gen_int(t: &mut Tape) -> i64 {
+    let sign = |t: &mut Tape, m: i128| if t.bool() { -m } else { m };
+    let v: i128 = match t.below(7) {
+        0 => {
+            // 0, -1, 1, -2, 2, ... +-20
+            let k = t.below(42) as i128;
+            if k % 2 == 0 {
+                k / 2
+            } else {
+                -(k / 2 + 1)
+            }
+        }
+        1 => {
+            let k = t.choose(&[7u32, 8, 15, 16, 23, 24, 31, 32, 39, 40, 47, 48, 55, 56, 63]);
+            let d = t.below(5) as i128 - 2;
+            sign(t, (1i128 << k) + d)
+        }
+        2 => {
+            let k = t.below(64) as u32;
+            sign(t, (1i128 << k) - 1)
+        }
+        3 => {
+            let k = t.below(64) as u32;
+            sign(t, 1i128 << k)
+        }
+        4 => {
+            let w = 1 + t.below(8) as u32;
+            let m = (t.u64() >> (64 - 8 * w)) as i128;
+            sign(t, m)
+        }
+        5 => t.choose(&[i64::MAX, i64::MIN + 1, 0x7fff_ffff, -0x7fff_ffff, 0x8000_0000, -0x8000_0000, 16, 17, -16, -17]) as i128,
+        _ => (t.u64() as i64) as i128,
+    };
+    v.clamp(i64::MIN as i128 + 1, i64::MAX as i128) as i64
+}
+
+fn gen_slice(t: &mut Tape, big_left: &mut u32) -> Vec<u8> {
+    match t.below(8) {
+        0 => {
+            let n = t.below(6);
+            t.bytes(n)
+        }
+        1 => vec![t.choose(&[0u8, 1, 2, 15, 16, 17, 0x4f, 0x50, 0x51, 0x60, 0x7f, 0x80, 0x81, 0x82, 0xff])],
+        2 => {
+            let n = t.choose(&[75usize, 76, 74, 77]);
+            t.filler(n)
+        }
+        3 => {
+            let n = t.below(81);
+            t.bytes(n)
+        }
+        4 => {
+            let n = t.choose(&[255usize, 256, 254, 257]);
+            t.filler(n)
+        }
+        5 => {
+            if *big_left > 0 && t.chance(96) {
+                *big_left -= 1;
+                let n = t.choose(&[65535usize, 65536, 65537, 65534]);
+                t.filler(n)
+            } else {
+                let n = t.below(700);
+                t.filler(n)
+            }
+        }
+        6 => {
+            let n = t.choose(&[20usize, 32, 33, 65]);
+            t.bytes(n)
+        }
+        _ => {
+            let n = t.below(300);
+            t.filler(n)
+        }
+    }
+}
+
+fn gen_opcode(t: &mut Tape) -> u8 {
+    match t.below(3) {
+        0 => t.choose(&[
+            0x87u8, 0x9c, 0xac, 0xae, 0xc1, 0x88, 0x9d, 0xad, 0xaf, 0xc2, 0x69, 0x00, 0x51, 0x60, 0x4f, 0x6a, 0x76, 0xa9, 0x86, 0x9b, 0xab,
+            0xc0, 0xba,
+        ]),
+        1 => 0x4f + t.below(0xb1) as u8,
+        _ => t.choose(&[0x87u8, 0x9c, 0xac, 0xae, 0xc1]),
+    }
+}
+
+fn len_class(n: usize) -> &'static str {
+    match n {
+        0 => "push-len:0",
+        1 => "push-len:1",
+        2..=74 => "push-len:2..74",
+        75 => "push-len:75",
+        76 => "push-len:76",
+        77..=254 => "push-len:77..254",
+        255 => "push-len:255",
+        256 => "push-len:256",
+        257..=65534 => "push-len:257..65534",
+        65535 => "push-len:65535",
+        65536 => "push-len:65536",
+        _ => "push-len:>65536",
+    }
+}
+fn boundary_len(n: usize) -> bool {
+    matches!(n, 75 | 76 | 255 | 256 | 65535 | 65536)
+}
+
+fn lib_ins(r: Result<Instruction<'_>, ScriptError>) -> Result<Ins, ScriptError> {
+    match r {
+        Ok(Instruction::PushBytes(d)) => Ok(Ins::Push(d.to_vec())),
+        Ok(Instruction::Op(o)) => Ok(Ins::Op(o.into_u8())),
+        Err(e) => Err(e),
+    }
+}
+fn show_ins(v: &[Result<Ins, ScriptError>]) -> String {
+    let mut s = String::new();
+    for (i, x) in v.iter().enumerate() {
+        if i >= 30 {
+            s.push_str(" ...");
+            break;
+        }
+        match x {
+            Ok(Ins::Op(o)) => s.push_str(&format!(" op{:02x}", o)),
+            Ok(Ins::Push(d)) if d.len() <= 10 => s.push_str(&format!(" <{}>", hex(d))),
+            Ok(Ins::Push(d)) => s.push_str(&format!(" <{} bytes>", d.len())),
+            Err(e) => s.push_str(&format!(" Err({:?})", e)),
+        }
+    }
+    s
+}
+fn show_op(op: &BOp) -> String {
+    match op {
+        BOp::Opcode(c) => format!("push_opcode({:#04x})", c),
+        BOp::Int(n) => format!("push_int({})", n),
+        BOp::ScriptInt(n) => format!("push_scriptint({})", n),
+        BOp::Slice(d) if d.len() <= 8 => format!("push_slice({})", hex(d)),
+        BOp::Slice(d) => format!("push_slice(<{} bytes>)", d.len()),
+        BOp::Key { compressed, .. } => format!("push_key(compressed={})", compressed),
+        BOp::Verify => "push_verify()".into(),
+    }
+}
+fn show_ops(ops: &[BOp]) -> String {
+    ops.iter().map(show_op).collect::<Vec<_>>().join(".")
+}
+
+fn builder_programs(t: &mut Tape, ctx: &mut Ctx) -> R {
+    let nops = t.below(25);
+    let mut ops: Vec<BOp> = Vec::with_capacity(nops + 1);
+    let mut keys: Vec<Option<BtcKey>> = Vec::with_capacity(nops + 1);
+    let mut big_left = 2u32;
+    while ops.len() < nops {
+        let (op, key) = match t.below(11) {
+            0 | 1 => (BOp::Opcode(gen_opcode(t)), None),
+            2 => (BOp::Int(gen_int(t)), None),
+            3 => (BOp::ScriptInt(gen_int(t)), None),
+            4 | 5 => (BOp::Slice(gen_slice(t, &mut big_left)), None),
+            6 => {
+                let pk = pool().pubkeys[t.below(pool().pubkeys.len())];
+                let compressed = !t.bool();
+                let ser = if compressed { pk.serialize().to_vec() } else { pk.serialize_uncompressed().to_vec() };
+                (BOp::Key { compressed, ser }, Some(BtcKey { compressed, inner: pk }))
+            }
+            7 | 8 => (BOp::Verify, None),
+            _ => {
+                // an opcode with a VERIFY form directly followed by push_verify
+                ops.push(BOp::Opcode(t.choose(&[0x87u8, 0x9c, 0xac, 0xae, 0xc1])));
+                keys.push(None);
+                (BOp::Verify, None)
+            }
+        };
+        ops.push(op);
+        keys.push(key);
+    }
+    let model = rs::build(&ops);
+    let total = model.bytes.len();
+
+    // the library
+    let (script, lens, empties) = guard::guard("Builder", total, || {
+        let mut b = Builder::new();
+        let mut lens = Vec::with_capacity(ops.len());
+        let mut empties = Vec::with_capacity(ops.len());
+        for (op, key) in ops.iter().zip(&keys) {
+            b = match (op, key) {
+                (BOp::Opcode(c), _) => b.push_opcode(All::from(*c)),
+                (BOp::Int(n), _) => b.push_int(*n),
+                (BOp::ScriptInt(n), _) => b.push_scriptint(*n),
+                (BOp::Slice(d), _) => b.push_slice(d),
+                (BOp::Key { .. }, Some(k)) => b.push_key(k),
+                (BOp::Key { ser, .. }, None) => b.push_slice(ser),
+                (BOp::Verify, _) => b.push_verify(),
+            };
+            lens.push(b.len());
+            empties.push(b.is_empty());
+        }
+        (b.into_script(), lens, empties)
+    })?;
+    ctx.eval();
+    let bytes = script.as_bytes();
+    if bytes != &model.bytes[..] {
+        let at = bytes.iter().zip(&model.bytes).position(|(a, b)| a != b).unwrap_or(bytes.len().min(total));
+        let lo = at.saturating_sub(6);
+        fail!(
+            "script built by {} differs from the expected bytes at offset {}: got ..{} ({} bytes), expected ..{} ({} bytes)",
+            show_ops(&ops),
+            at,
+            hex(&bytes[lo.min(bytes.len())..(at + 8).min(bytes.len())]),
+            bytes.len(),
+            hex(&model.bytes[lo.min(total)..(at + 8).min(total)]),
+            total
+        );
+    }
+    for (i, st) in model.steps.iter().enumerate() {
+        ensure_eq!(lens[i], st.len_after, "Builder::len after operation {} of {}", i, show_ops(&ops));
+        ensure!(empties[i] == (st.len_after == 0), "Builder::is_empty after operation {} of {}", i, show_ops(&ops));
+    }
+
+    // instructions(): exactly what was added
+    let cap = model.ins.len() + 4;
+    let got: Vec<Result<Ins, ScriptError>> = guard::guard("Script::instructions", total, || script.instructions().take(cap).map(lib_ins).collect())?;
+    let want: Vec<Result<Ins, ScriptError>> = model.ins.iter().cloned().map(Ok).collect();
+    ctx.eval();
+    ensure!(
+        got == want,
+        "instructions() of the script built by {} yields{} but{} was added",
+        show_ops(&ops),
+        show_ins(&got),
+        show_ins(&want)
+    );
+
+    // every push uses the shortest header for its length (independent decoder over the library's bytes)
+    match rs::parse(bytes) {
+        Ok(items) => {
+            ensure!(items.len() == model.ins.len(), "built script {} does not decode into the added items", hex_clip(bytes));
+            for (k, (ins, hdr)) in items.iter().enumerate() {
+                ensure!(ins == &model.ins[k], "item {} of built script {} is not the item added by {}", k, hex_clip(bytes), show_ops(&ops));
+                if let Ins::Push(d) = ins {
+                    ensure!(
+                        *hdr == rs::shortest_header_len(d.len()),
+                        "push of {} bytes uses a {}-byte header (shortest is {}) in the script built by {}",
+                        d.len(),
+                        hdr,
+                        rs::shortest_header_len(d.len()),
+                        show_ops(&ops)
+                    );
+                }
+            }
+        }
+        Err((_, e)) => fail!("built script {} does not decode: {:?} (operations {})", hex_clip(bytes), e, show_ops(&ops)),
+    }
+    ctx.eval();
+
+    // instructions_minimal(): accepts the script unless a one-byte small integer was pushed as data
+    let got_min: Vec<Result<Ins, ScriptError>> =
+        guard::guard("Script::instructions_minimal", total, || script.instructions_minimal().take(cap).map(lib_ins).collect())?;
+    ctx.eval();
+    match model.first_nonminimal {
+        None => {
+            ensure!(
+                got_min == want,
+                "instructions_minimal() of the script built by {} yields{} but{} was added (no push has a shorter form)",
+                show_ops(&ops),
+                show_ins(&got_min),
+                show_ins(&want)
+            );
+            ctx.class("minimal:accepted");
+        }
+        Some(k) => {
+            let mut w: Vec<Result<Ins, ScriptError>> = want[..k].to_vec();
+            w.push(Err(ScriptError::NonMinimalPush));
+            ensure!(
+                got_min == w,
+                "instructions_minimal() of the script built by {} yields{}; expected{} (item {} is a one-byte push of a number that has its own opcode)",
+                show_ops(&ops),
+                show_ins(&got_min),
+                show_ins(&w),
+                k
+            );
+            ctx.class("minimal:rejected-small-int-data-push");
+        }
+    }
+
+    // numbers read back
+    let mut sig: Vec<(u8, u64)> = Vec::with_capacity(ops.len());
+    let mut nontrivial = false;
+    for (i, op) in ops.iter().enumerate() {
+        let st = &model.steps[i];
+        let item = &model.ins[st.ins_index];
+        match op {
+            BOp::Int(n) | BOp::ScriptInt(n) => {
+                let is_int = matches!(op, BOp::Int(_));
+                match item {
+                    Ins::Push(d) => {
+                        // the bytes as the library's iterator returned them
+                        let lib_d = match &got[st.ins_index] {
+                            Ok(Ins::Push(x)) => x.clone(),
+                            _ => d.clone(),
+                        };
+                        let r = guard::guard("read_scriptint", lib_d.len(), || read_scriptint(&lib_d))?;
+                        ctx.eval();
+                        if d.len() <= 4 {
+                            ensure!(r == Ok(*n), "{} pushed {} which read_scriptint reads as {:?}", show_op(op), hex(&lib_d), r);
+                        } else {
+                            ensure!(
+                                r == Err(ScriptError::NumericOverflow),
+                                "{} pushed the {}-byte number {} for which read_scriptint gives {:?} instead of NumericOverflow",
+                                show_op(op),
+                                d.len(),
+                                hex(&lib_d),
+                                r
+                            );
+                        }
+                        ctx.class(match (is_int, d.len()) {
+                            (true, 0) => "int:OP_0",
+                            (true, 1..=4) => "int:data-1..4-bytes",
+                            (true, _) => "int:data-5..9-bytes(overflow-on-read)",
+                            (false, 0) => "scriptint:empty",
+                            (false, 1) if rs::is_small_int_byte(d) => "scriptint:small-int-as-data",
+                            (false, 1..=4) => "scriptint:data-1..4-bytes",
+                            (false, _) => "scriptint:data-5..9-bytes(overflow-on-read)",
+                        });
+                        sig.push((if is_int { 2 } else { 3 }, d.len() as u64 * 2 + u64::from(*n < 0)));
+                    }
+                    Ins::Op(c) => {
+                        // dedicated opcode: its class states the number
+                        let c = *c;
+                        let cls = guard::guard("opcodes::All::classify", 1, || All::from(c).classify(ClassifyContext::Legacy))?;
+                        ctx.eval();
+                        ensure!(
+                            cls == Class::PushNum(*n as i32),
+                            "{} gave opcode {:#04x} whose class is {:?}, not PushNum({})",
+                            show_op(op),
+                            c,
+                            cls,
+                            n
+                        );
+                        ctx.class("int:OP_1NEGATE/OP_1..OP_16");
+                        sig.push((2, 100 + u64::from(c)));
+                    }
+                }
+            }
+            BOp::Slice(d) => {
+                if d.len() <= 8 {
+                    let r = guard::guard("read_scriptint", d.len(), || read_scriptint(d))?;
+                    ctx.eval();
+                    let w = rs::scriptnum_decode(d).ok_or(ScriptError::NumericOverflow);
+                    ensure!(r == w, "read_scriptint({}) = {:?}, the sign-magnitude value is {:?}", hex(d), r, w);
+                }
+                ctx.class(len_class(d.len()));
+                if boundary_len(d.len()) {
+                    nontrivial = true;
+                    ctx.class("nontrivial:push-at-size-boundary");
+                }
+                sig.push((4, d.len() as u64));
+            }
+            BOp::Key { compressed, ser } => {
+                ensure!(
+                    ser.len() == if *compressed { 33 } else { 65 },
+                    "harness: key serialization of {} bytes",
+                    ser.len()
+                );
+                ctx.class(if *compressed { "key:compressed" } else { "key:uncompressed" });
+                sig.push((5, u64::from(*compressed)));
+            }
+            BOp::Opcode(c) => {
+                ctx.class(if rs::verify_form(*c).is_some() {
+                    "opcode:has-verify-form"
+                } else if *c == 0 {
+                    "opcode:OP_0"
+                } else {
+                    "opcode:other"
+                });
+                sig.push((1, u64::from(*c)));
+            }
+            BOp::Verify => {
+                match st.verify {
+                    Some(VerifyCtx::Folded(o)) => {
+                        nontrivial = true;
+                        ctx.class(match o {
+                            rs::OP_EQUAL => "verify:folds:OP_EQUAL",
+                            rs::OP_NUMEQUAL => "verify:folds:OP_NUMEQUAL",
+                            rs::OP_CHECKSIG => "verify:folds:OP_CHECKSIG",
+                            rs::OP_CHECKMULTISIG => "verify:folds:OP_CHECKMULTISIG",
+                            _ => "verify:folds:OP_CHECKSIGFROMSTACK",
+                        });
+                        sig.push((6, u64::from(o)));
+                    }
+                    Some(VerifyCtx::AtStart) => {
+                        ctx.class("verify:appended:at-script-start");
+                        sig.push((6, 1));
+                    }
+                    Some(VerifyCtx::AfterData) => {
+                        // data ending in a byte that looks like a foldable opcode is the interesting case
+                        let looks = model.bytes.get(st.len_after.wrapping_sub(2)).map_or(false, |b| rs::verify_form(*b).is_some());
+                        ctx.class(if looks { "verify:appended:after-data-ending-in-foldable-byte" } else { "verify:appended:after-data" });
+                        sig.push((6, 2 + u64::from(looks)));
+                    }
+                    Some(VerifyCtx::AfterOtherOp(o)) => {
+                        ctx.class(match o {
+                            rs::OP_VERIFY => "verify:appended:after-OP_VERIFY",
+                            rs::OP_EQUALVERIFY | rs::OP_NUMEQUALVERIFY | rs::OP_CHECKSIGVERIFY | rs::OP_CHECKMULTISIGVERIFY
+                            | rs::OP_CHECKSIGFROMSTACKVERIFY => "verify:appended:after-a-VERIFY-form",
+                            _ => "verify:appended:after-other-opcode",
+                        });
+                        sig.push((6, 1000 + u64::from(o)));
+                    }
+                    None => fail!("harness: model recorded no verify context"),
+                }
+            }
+        }
+    }
+    // boundary pushes also come from push_key / numbers? (33/65 and <= 9 bytes: never a boundary)
+    if nontrivial {
+        ctx.nontrivial(&sig);
+        let label = if model.steps.iter().any(|s| matches!(s.verify, Some(VerifyCtx::Folded(_)))) { "builder:fold" } else { "builder:boundary-push" };
+        if ctx.wants_sample(label) {
+            ctx.sample(label, || json!({"operations": show_ops(&ops), "script": hex_clip(bytes), "items": show_ins(&want)}));
+        }
+    }
+    Ok(())
+}
+
+/// the model against literal vectors; a failure here is a harness error, not a violation
+fn anchors(_idx: u64, _seed: u64, ctx: &mut Ctx) -> R {
+    if let Err(e) = rs::self_test() {
+        panic!("harness: script model self-test failed: {}", e);
+    }
+    ctx.eval();
+    ctx.class("model-self-test");
+    Ok(())
+}
+
+fn repro_short_program() -> bool {
+    let s = Script::from(vec![0x51, 0x00]);
+    match Address::from_script(&s, None, &AddressParams::ELEMENTS) {
+        Some(a) => Address::from_str(&a.to_string()).is_err(),
+        None => false,
+    }
+}
 
 pub fn property() -> Property {
-    Property { id: "C16", rule: "", assumptions: &[], subs: vec![], known: vec![] }
+    Property {
+        id: "C16",
+        rule: "builder_programs: tape-generated sequences of 0..25 Builder operations: push_opcode over OP_0 and every byte \
+               0x4f..=0xff (biased to the opcodes with a VERIFY form), push_int / push_scriptint over i64 without i64::MIN \
+               (dense at 0, +-1..20, +-2^k and +-(2^k)-1, byte-length boundaries), push_slice with lengths 0,1,2,74..77,254..257,\
+               65534..65537 and random, push_key compressed / uncompressed, push_verify after every kind of predecessor. Oracle: \
+               script bytes == model bytes (shortest push header for the length, OP_0/OP_1NEGATE/OP_1..16 for push_int, \
+               little-endian sign-magnitude numbers, 5-entry VERIFY folding table, data pushes clear the last opcode); \
+               Builder::len/is_empty after every step; instructions() == the items added; an independent decoder finds the same \
+               items and the shortest header on each; instructions_minimal() == the same list, or the prefix and NonMinimalPush \
+               at the first one-byte data push of 1..16 / 0x81; read_scriptint(push) == n up to 4 bytes and NumericOverflow \
+               beyond; dedicated number opcodes classify as PushNum(n). templates_exhaustive: every length 0..=45 x every \
+               first byte x every second byte, each with a filler tail, with the tail the template shape fixes, and with one \
+               such tail byte perturbed, plus every third byte under a p2pkh head and tail (complete family). \
+               template_perturbations: hand-built p2pkh / p2sh / p2pk / witness programs of every version 0..16 and program \
+               length 0..42 / OP_RETURN / 9999..10002-byte scripts with one substitution, truncation, extension, insertion, \
+               version pushed as data or program pushed via PUSHDATA1. Oracle for both: ten Script::is_* predicates == the byte \
+               forms; Address::from_script is Some exactly for p2pkh, p2sh, v0 20/32-byte and v1..16 witness programs, for 3 \
+               networks x with/without blinding key; then payload, script_pubkey() == script, from_str(to_string()) == address \
+               and parse_with_params likewise. Non-trivial: a builder program containing a push of exactly 75, 76, 255, 256, \
+               65535 or 65536 bytes or a folding push_verify (distinct by operation kinds, lengths and opcodes); a script that \
+               is an exact template or one substituted / missing / extra byte away from one (distinct by bytes).",
+        assumptions: &[
+            "the builder / template model (refimpl/script.rs) is anchored on literal BIP 62 / 141 / 173 vectors (sub-check anchors)",
+            "i64::MIN is outside the domain of push_int / push_scriptint (it has no sign-magnitude negation in i64)",
+            "push_opcode is not fed the raw push opcodes 0x01..=0x4e (they would swallow the following bytes)",
+        ],
+        subs: vec![
+            Sub { name: "anchors", kind: Kind::Index { count: |_| 1, exhaustive: true, f: anchors } },
+            Sub { name: "builder_programs", kind: Kind::Tape { max_len: 1400, quick: 200_000, thorough: 5_000_000, f: builder_programs } },
+            Sub { name: "templates_exhaustive", kind: Kind::Index { count: |_| (MAX_L + 1) * 256, exhaustive: true, f: templates_exhaustive } },
+            Sub { name: "template_perturbations", kind: Kind::Tape { max_len: 200, quick: 400_000, thorough: 10_000_000, f: template_perturbations } },
+        ],
+        known: vec![Known {
+            key: KF_SHORT_PROGRAM,
+            what: "Address::from_script returns an address for OP_1..OP_16 followed by a push of 0 or 1 bytes (is_v1plus_p2witprog has no lower length bound); its text form does not parse",
+            repro: repro_short_program,
+        }],
+    }
 }
